@@ -400,6 +400,15 @@ impl<'a> Ptr<'a> {
 
     /// Remove the stream from the store
     pub fn remove(self) -> StreamId {
+        #[cfg(feature = "verif-hooks")]
+        crate::verif::ev("store.remove", || {
+            vec![
+                u32::from(self.key.stream_id) as i64,
+                isize::from(self.send_flow.available()) as i64,
+                isize::from(self.recv_flow.available()) as i64,
+                self.in_flight_recv_data as i64,
+            ]
+        });
         // The stream must have been unlinked before this point
         debug_assert!(!self.store.ids.contains_key(&self.key.stream_id));
 
@@ -475,9 +484,16 @@ impl<'a> VacantEntry<'a> {
 
 #[cfg(feature = "verif-hooks")]
 impl Store {
-    /// Read-only iteration in `ids` order (verification hook).
-    pub(super) fn verif_streams(&self) -> impl Iterator<Item = &Stream> {
-        self.ids.values().map(move |i| &self.slab[i.0 as usize])
+    /// Read-only iteration over every record of the slab, linked or not (verification hook).
+    pub(super) fn verif_streams(&self) -> impl Iterator<Item = (&Stream, bool)> {
+        self.slab.iter().map(move |(i, s)| {
+            let linked = self
+                .ids
+                .get(&s.id)
+                .map(|k| k.0 as usize == i)
+                .unwrap_or(false);
+            (s, linked)
+        })
     }
 
     pub(super) fn verif_sizes(&self) -> (usize, usize) {
